@@ -38,9 +38,9 @@ def run(res):
     lib.proof_stage(res, "C05.v", "Props.C05", PINNED)
     cov = res.coverage
     profiles = ["debug"] if quick else ["debug", "release"]
-    n_commit = 3000 if quick else 40000
+    n_commit = 3000 if quick else 100000
     n_setup = 600 if quick else 8000
-    n_chan = 40 if quick else 300
+    n_chan = 150 if quick else 1500
     commit, setup, chan, stats = [], [], [], []
     for prof in profiles:
         r = lib.run_harness("policy", "commit", res.seed, n_commit, res.tier, profile=prof)
@@ -68,7 +68,7 @@ def run(res):
     # end-to-end first: a real channel signing the commitment
     for c in mon_chan[:2]:
         res.violation("counterparty commitment outside the policy bounds was signed by "
-                      "Channel::sign_counterparty_commitment_tx_phase2: " + "; ".join(c["monitor_violation"][:3]),
+                      "Channel::sign_counterparty_commitment_tx(_phase2): " + "; ".join(c["monitor_violation"][:3]),
                       {"domain": "policy-chan", "seed": res.seed, "case": _strip(c)})
     for c in mon_commit[:2]:
         res.violation("validator accepted a commitment outside the policy bounds: " + "; ".join(c["monitor_violation"]),
@@ -80,10 +80,16 @@ def run(res):
 
     # correspondence disagreements; say whether the implementation still behaves like the estimator as found
     explained_old = None
-    if fc:
-        bad = [cterms[i] for i in fc]
-        still = lib.coq_failures(IMPORTS, "commit_case", "check_commit_old", bad, "c05_commit_old")
-        explained_old = len(bad) - len(still)
+    if fc or fh:
+        explained_old = 0
+        if fc:
+            bad = [cterms[i] for i in fc]
+            still = lib.coq_failures(IMPORTS, "commit_case", "check_commit_old", bad, "c05_commit_old")
+            explained_old += len(bad) - len(still)
+        if fh:
+            bad = [hterms[j] for j in fh]
+            still = lib.coq_failures(IMPORTS, "sign_case", "check_sign_old", bad, "c05_sign_old")
+            explained_old += len(bad) - len(still)
     have_input = bool(mon_commit or mon_chan or mon_setup)
     shown = 0
     for i in fc:
@@ -113,7 +119,7 @@ def run(res):
             break
         shown += 1
         model = lib.coq_eval(IMPORTS, "(sign_model (%s), sign_model_old (%s))" % (c["coq"][i], c["coq"][i]), "c05_show")
-        res.violation("sign_counterparty_commitment_tx_phase2 disagrees with the model's sign_counterparty "
+        res.violation("sign_counterparty_commitment_tx(_phase2) disagrees with the model's sign_counterparty "
                       "(correspondence policy-chan); 0 signed, 1 panic, 2 refused",
                       {"correspondence": "policy-chan", "theorem": "C05_channel_value", "case": _strip(c),
                        "step": c["steps"][i], "model(repaired, as-found)": model[-300:]}, has_input=False)
@@ -140,6 +146,7 @@ def run(res):
         "samples": [_strip(commit[2]) if len(commit) > 2 else None, _strip(setup[0]), _strip(chan[0])],
         "traces_validated_against_impl": len(commit) + len(setup) + len(hterms),
         "correspondence_disagreements": len(fc) + len(fs) + len(fh),
+        "disagreements_by_domain": {"commit": len(fc), "setup": len(fs), "chan": len(fh)},
         "disagreements_matching_unrepaired_estimator": explained_old,
         "monitor_failures": len(mon_commit) + len(mon_setup) + len(mon_chan),
         "observed_distribution_commit(0 ok,1 panic,100+tag)": dist,
